@@ -32,7 +32,10 @@ Inductive where_ :=
 | WCapture             (* a closure over a local of the failing frame was stored in global c *)
 | WBuiltin             (* built-in error (nil.foo) inside try/finally *)
 | WCaptureFiber        (* like WCapture, but the error is raised in a fiber CALLED by the capturing frame *)
-| WFiberWait.          (* global fw = a fiber that is waiting for the fiber whose uncaught error ends the run *)
+| WFiberWait           (* global fw = a fiber that is waiting for the fiber whose uncaught error ends the run *)
+| WSetGlobal           (* total = 41;  assignment to an undeclared global: SetGlobal inserts provisionally, then fails *)
+| WSetGlobalNested     (* the same inside a call *)
+| WSetGlobalFiber.     (* the same inside a fiber *)
 
 Inductive snip :=
 | SnVar (g : idx) (z : Z)
@@ -50,6 +53,7 @@ Inductive snip :=
 | SnRange (k : depth)
 | SnUseLeak
 | SnUseFiber                                   (* print(fw.has_finished()); *)
+| SnProbeTotal                                 (* print(total);  `total` is never declared by any snippet *)
 | SnImport (m : modk)
 | SnUseMod (m : modk)
 | SnReset.
@@ -93,6 +97,9 @@ Definition render_where (w : where_) : string :=
   | WBuiltin => "try { nil.foo; } finally { print(""nf""); }"
   | WCaptureFiber => "var c = nil; (|| { var x = 41; c = || x; Fiber.new(|| { throw 1; }).call(); })();"
   | WFiberWait => "var fw = Fiber.new(|| { Fiber.new(|| { throw 1; }).call(); }); fw.call();"
+  | WSetGlobal => "total = 41;"
+  | WSetGlobalNested => "(|| { total = 41; })();"
+  | WSetGlobalFiber => "Fiber.new(|| { total = 41; }).call();"
   end.
 
 Definition render (s : snip) : string :=
@@ -113,6 +120,7 @@ Definition render (s : snip) : string :=
   | SnRange k => "for i in 0.." ++ show_nat (depth_nat k) ++ " { print(i); }"
   | SnUseLeak => "print(c());"
   | SnUseFiber => "print(fw.has_finished());"
+  | SnProbeTotal => "print(total);"
   | SnImport m => "import """ ++ mod_path m ++ """ as " ++ mod_alias m ++ "; print(" ++ mod_alias m ++ ".v);"
   | SnUseMod m => "print(" ++ mod_alias m ++ ".v);"
   | SnReset => "RESET"
@@ -139,7 +147,7 @@ Definition where_of_N (n : N) : where_ :=
   match n with
   | 0%N => WTop | 1%N => WNested D1 | 2%N => WNested D2 | 3%N => WNested D3 | 4%N => WFiber | 5%N => WTryFinally
   | 6%N => WCatch | 7%N => WFinally | 8%N => WFinallyRet | 9%N => WClassDef | 10%N => WClassDefNested
-  | 11%N => WCapture | 12%N => WBuiltin | 13%N => WCaptureFiber | _ => WFiberWait
+  | 11%N => WCapture | 12%N => WBuiltin | 13%N => WCaptureFiber | 14%N => WFiberWait | 15%N => WSetGlobal | 16%N => WSetGlobalNested | _ => WSetGlobalFiber
   end.
 Definition z_of_wire (n : N) : Z := (Z.of_N n - 100)%Z.
 Definition idx_of_N (n : N) : idx := match n with 0%N => I0 | _ => I1 end.
@@ -162,6 +170,7 @@ Definition snip_of_group (g : list N) : snip :=
   | [12%N; k] => SnRange (match k with 1%N => D1 | 2%N => D2 | _ => D3 end)
   | [13%N] => SnUseLeak
   | [17%N] => SnUseFiber
+  | [18%N] => SnProbeTotal
   | [14%N; m] => SnImport (modk_of_N m)
   | [15%N; m] => SnUseMod (modk_of_N m)
   | _ => SnReset
